@@ -74,11 +74,11 @@ class Registry(object):
             body = ast.parse(' '.join(body.split()), mode='eval').body
         self.ghosts[name] = (list(params), body)
 
-    def loop(self, fnkey, ordinal, inv=(), types=None, decreases=None, yield_type=None, havoc=(), body_trace=(), raise_trace=()):
+    def loop(self, fnkey, ordinal, inv=(), types=None, decreases=None, yield_type=None, havoc=(), body_trace=(), raise_trace=(), no_early_exit=None):
         if isinstance(inv, str):
             inv = [inv]
         self.loops[(fnkey, ordinal)] = {'inv': list(inv), 'types': types or {}, 'decreases': decreases,
-                                        'yield_type': yield_type, 'havoc': list(havoc), 'body_trace': list(body_trace), 'raise_trace': list(raise_trace)}
+                                        'yield_type': yield_type, 'havoc': list(havoc), 'body_trace': list(body_trace), 'raise_trace': list(raise_trace), 'no_early_exit': no_early_exit}
 
     def lemma(self, lid, props, fn, doc=''):
         """fn(z3) -> (list of hypotheses, goal) ; discharged like any other obligation"""
